@@ -1116,7 +1116,8 @@ def mon_C11(blocks):
             for e in b.evs:
                 if e[0] == "del" and e[-1] != "fail":
                     out.append(Violation(b.idx, "a record was deleted although the load failed"))
-                if e[0] == "save" and e[-1] != "fail" and _unq(e[1]) not in a.pre_store:
+                if e[0] == "save" and e[-1] != "fail" and _unq(e[1]) not in a.pre_store and _unq(e[1]) not in a.pre_cache and not limbo:
+                    # (a flush of a cached session whose own save failed earlier writes under an id the store does not know yet)
                     out.append(Violation(b.idx, "a session was created although the load failed"))
             if b.rng:
                 out.append(Violation(b.idx, "an id was generated although the load failed"))
